@@ -244,3 +244,41 @@ Proof.
   split; [exact AQ_OrdLaws|]. split; [exact AR_OrdLaws|]. split; [reflexivity|].
   split; [cbn; lia|]. split; [cbn; lia|]. vm_compute. reflexivity.
 Qed.
+
+(* ---- the LU half of C01 and the agreement of the two solvers (assembled by the coordinator from packages c01 and c02:
+   Proofs/SolveAgree.v).  LUPrim.PivLaws is c02's copy of the three pivot laws (same fields as PivLaws above); it is
+   proved, not assumed, for Qc, R and C = R[i] in Proofs/LUQc.v and Proofs/LUReal.v. *)
+From OV Require Proofs.LUPrim Proofs.LUSolve Proofs.LUKernel Proofs.SolveAgree.
+
+Theorem solve_lu_sound : forall (A : Arith), FieldLaws A -> LUPrim.PivLaws A -> forall (M : matrix A) (b x : list A),
+  wf M -> rows M = cols M -> length b = rows M -> solve_lu M b = Ok x ->
+  length x = rows M /\
+  forall i, i < rows M -> mvprod (rows M) (ent M) (fun k => nth k x zero) i = nth i b zero.
+Proof. intros A FL PL M b x. exact (SolveAgree.solve_lu_sound_c01form FL PL M b x). Qed.
+Check solve_lu_sound : forall (A : Arith), FieldLaws A -> LUPrim.PivLaws A -> forall (M : matrix A) (b x : list A),
+  wf M -> rows M = cols M -> length b = rows M -> solve_lu M b = Ok x ->
+  length x = rows M /\
+  forall i, i < rows M -> mvprod (rows M) (ent M) (fun k => nth k x zero) i = nth i b zero.
+Print Assumptions solve_lu_sound.
+
+Theorem solve_lu_complete : forall (A : Arith), FieldLaws A -> LUPrim.PivLaws A -> forall (M : matrix A) (b : list A) (Nf : nat -> nat -> A),
+  wf M -> rows M = cols M -> 1 <= rows M -> length b = rows M -> LUKernel.left_inverse (rows M) Nf (LUPrim.ent M) ->
+  exists x, solve_lu M b = Ok x.
+Proof. intros A FL PL M b Nf. exact (LUKernel.solve_lu_nonsingular_lemma FL PL M b Nf). Qed.
+Check solve_lu_complete : forall (A : Arith), FieldLaws A -> LUPrim.PivLaws A -> forall (M : matrix A) (b : list A) (Nf : nat -> nat -> A),
+  wf M -> rows M = cols M -> 1 <= rows M -> length b = rows M -> LUKernel.left_inverse (rows M) Nf (LUPrim.ent M) ->
+  exists x, solve_lu M b = Ok x.
+Print Assumptions solve_lu_complete.
+
+Theorem solvers_agree : forall (A : Arith), FieldLaws A -> LUPrim.PivLaws A -> forall (M : matrix A) (b x y : list A),
+  wf M -> rows M = cols M -> length b = rows M ->
+  (exists N : nat -> nat -> A, left_inverse (rows M) N (ent M)) ->
+  solve_basic M b = Ok x -> solve_lu M b = Ok y -> x = y.
+Proof. intros A FL PL M b x y. exact (SolveAgree.solvers_agree_lemma FL PL M b x y). Qed.
+Check solvers_agree : forall (A : Arith), FieldLaws A -> LUPrim.PivLaws A -> forall (M : matrix A) (b x y : list A),
+  wf M -> rows M = cols M -> length b = rows M ->
+  (exists N : nat -> nat -> A, left_inverse (rows M) N (ent M)) ->
+  solve_basic M b = Ok x -> solve_lu M b = Ok y -> x = y.
+Print Assumptions solvers_agree.
+Example solvers_agree_nonvacuous : is_ok (solve_basic M3 b3) = true /\ is_ok (solve_lu M3 b3) = true /\ solve_basic M3 b3 = solve_lu M3 b3.
+Proof. vm_compute. repeat split; reflexivity. Qed.
